@@ -832,6 +832,23 @@ def r_monitor(ctx):
                       "encode(verbose=True) calls monitor(total - len(quotient), total) with a first argument of 0 whenever a "
                       "division keeps the digit count, and raises ZeroDivisionError", inputs='verbose=True, messages such as 2, 20, 200')
             break
+    seen = set()
+    k = 0
+    for nd, s in ctx.all_subterms(f):
+        if s[0] == 'bin' and s[1] in ('/', '//', '%') and s not in seen:
+            seen.add(s)
+            dv = s[3]
+            if dv[0] == 'c' and dv[1] not in (0, 0.0):
+                continue
+            if dv in (('v', 'current_state', 'P'), ('v', 'total_state', 'P')):
+                continue        # current_state: guarded above; total_state: positive at every call site (assumed)
+            if s[2][0] == 'c' and isinstance(s[2][1], str):
+                continue        # "%04d" % (...) string formatting
+            k += 1
+            run.refute('R-VERB', f, 'monitor:derived-divisor#%d' % k, nd.lineno,
+                       "Monitor.__call__ divides by %s, a derived quantity that is 0 for small arguments (e.g. fewer than 100 "
+                       "states): ZeroDivisionError as soon as verbose=True is used on a small job" % show(dv)[:60],
+                       inputs='verbose=True with a small number of states')
     rets = [nd for nd in f.stmts(ast.Return) if nd.stmt.value is not None]
     run.check(not rets, 'R-VERB', f, 'monitor:returns-nothing', rets[0].lineno if rets else f.node.lineno,
               'the progress monitor returns nothing', 'Monitor.__call__ returns a value', nontrivial=False)
